@@ -19,12 +19,23 @@ L1 = {"Skc.L1.L2Cost": ["l2_cost_optim", "l2_cost_fixed", "l2_saving"], "Skc.L1.
 
 
 def gen_cuts(rng, n, k, ms, count):
-    """admissible k-point cuts with each part >= ms; consecutive rows often share entries"""
+    """admissible k-point cuts with each part >= ms; consecutive rows often share entries, and a third
+    of the batches are pure: every row has the same first (or the same last) entry while the others differ
+    (expanding / contracting windows — shapes a batch-level shortcut in an adapter would key on)"""
     out = []
     tries = 0
+    mode = rng.choice(["mixed", "mixed", "mixed", "mixed", "same-first", "same-last"])
+    anchor = None
     while len(out) < count and tries < 50 * count:
         tries += 1
-        if out and rng.random() < 0.5:  # perturb the previous cut in one coordinate (same start, other end, …)
+        if mode != "mixed" and n + 1 >= k:
+            if anchor is None:
+                anchor = rng.randint(0, max(0, n - ms * (k - 1))) if mode == "same-first" else rng.randint(min(n, ms * (k - 1)), n)
+            rest = sorted(rng.sample(range(0, n + 1), k - 1))
+            c = [anchor] + rest if mode == "same-first" else rest + [anchor]
+            if tuple(c) in out:
+                continue
+        elif out and rng.random() < 0.5:  # perturb the previous cut in one coordinate (same start, other end, …)
             c = list(out[-1])
             i = rng.randrange(k)
             c[i] += rng.choice([-2, -1, 1, 2, 3])
